@@ -842,6 +842,9 @@ pub fn main_c01(tier_name: &str, seed: u64) -> i32 {
             calls.extend(gen::modifier_family(&mut g));
             calls.push(gen::tone_alias_call(&mut g));
         }
+        for _ in 0..(tr.n_gen / 60).max(3) {
+            calls.push(gen::long_list_call(&d, &mut g));
+        }
         let sampled: Vec<usize> = (n_sweep..calls.len()).collect();
         let all: Vec<usize> = (0..calls.len()).collect();
         let info = |c: usize| (calls[c].kind == "run", calls[c].words.len());
